@@ -48,17 +48,30 @@ func ZZ_C19_Wire() {
 	go func() { c.serve(); done = true }()
 	n := 1 + zzrt.Choice(3)
 	connectAt := -1
+	// the packets arrive one by one, or all in one segment (pipelined behind the first)
+	oneSegment := zzrt.Choice(2) == 1
+	var segment []byte
 	for i := 0; i < n; i++ {
+		var b []byte
 		if zzrt.Choice(2) == 0 {
 			if connectAt < 0 {
 				connectAt = i
 			}
 			cp := zzV5Connect("c1")
 			cp.Username, cp.Password, cp.UsernameFlag, cp.PasswordFlag = []byte("u"), []byte("p"), true, true
-			conn.in <- zzEncode(cp)
+			b = zzEncode(cp)
 		} else {
-			conn.in <- zzEncode(zzWirePacket(zzrt.Choice(4)))
+			b = zzEncode(zzWirePacket(zzrt.Choice(4)))
 		}
+		if oneSegment {
+			segment = append(segment, b...)
+			continue
+		}
+		conn.in <- b
+		zzrt.Yield()
+	}
+	if oneSegment {
+		conn.in <- segment
 		zzrt.Yield()
 	}
 	off := 0
@@ -87,6 +100,9 @@ func ZZ_C19_Wire() {
 		zzrt.Cover("accepted")
 	} else {
 		zzrt.Assert(sessions == 0 && subs == 0 && delivered == 0 && len(srv.clients) == 0, "no-broker-state-without-an-accepted-connect")
+		anySubs := 0
+		srv.subscriptionsDB.Iterate(func(string, *gmqtt.Subscription) bool { anySubs++; return true }, subscription.IterationOptions{Type: subscription.TypeAll})
+		zzrt.Assert(anySubs == 0, "no-subscription-under-any-client-id-without-an-accepted-connect")
 		zzrt.Assert(srv.retainedDB.GetRetainedMessage("t") == nil, "no-retained-message-without-an-accepted-connect")
 		if connectAt != 0 {
 			zzrt.Assert(authCalls == 0 || connectAt > 0, "first-packet-must-be-connect")
